@@ -97,6 +97,17 @@ def _leaf_value(t):
 
 
 def build(t):
+    """the roller for a tree, sometimes labelled afterwards with .annotate() (a copy that must roll as its own roller)"""
+    r = _build(t)
+    v = _variant(["annotate", t], 5)
+    if v == 0:
+        return r.annotate("label")
+    if v == 1:
+        return r.annotate("a").annotate("")
+    return r
+
+
+def _build(t):
     """builds the roller for a tree; nodes are spelled through the different public constructors and
     convenience methods (operators, map/rmap/umap, *_from_values, *_iterable, select/filter methods), chosen
     by a hash of the node so that a replayed case is built the same way"""
